@@ -197,7 +197,7 @@ package v2
 //@   csensures[rejected_entry_not_buffered] (len(entry.Key) < 1 || len(entry.Key) > 65535 || len(entry.Data) > 2147483647) ==> len(fw.buffer.entries) == old(len(fw.buffer.entries)) && fw.buffer.currentSize == old(fw.buffer.currentSize)
 
 //@ func (*FileWriter).flushLocked(fw) (err)
-//@   property C01
+//@   property C01 C02 C25
 //@   nopanic
 //@   overflow: assumed
 //@   holds fw.mu
@@ -210,9 +210,8 @@ package v2
 //@   ensures[append_only] forall j in 64..old(flen(fw.file)): fbyte(fw.file, j) == old(fbyte(fw.file, j))
 //@   ensures[never_shrinks] flen(fw.file) >= old(flen(fw.file))
 //@   ensures[positioned_at_end_after_success] err == nil ==> fpos(fw.file) == flen(fw.file)
-//@   ensures[positioned_at_end_after_failure] err != nil ==> fpos(fw.file) == flen(fw.file)
-//@   ensures[failed_flush_keeps_entries] err != nil ==> len(fw.buffer.entries) == old(len(fw.buffer.entries))
-//@   ensures[buffer_emptied_even_on_write_error] len(fw.buffer.entries) == 0 && (old(len(fw.buffer.entries)) > 0 ==> fw.buffer.currentSize == 0)
+//@   ensures[C25:positioned_at_end_after_failure] err != nil ==> fpos(fw.file) == flen(fw.file)
+//@   ensures[C25:failed_flush_keeps_entries] err != nil ==> len(fw.buffer.entries) == old(len(fw.buffer.entries))
 //@   ensures[empty_buffer_untouched] old(len(fw.buffer.entries)) == 0 ==> fw.buffer.currentSize == old(fw.buffer.currentSize)
 //@   ensures[flushed] err == nil ==> len(fw.buffer.entries) == 0 && (old(len(fw.buffer.entries)) > 0 ==> fw.buffer.currentSize == 0)
 
